@@ -34,6 +34,7 @@ def alias (op : String) (args : List String) : String × List String :=
   | "sxg.verify.reread", _ :: rest => ("sxg.verify", rest)
   | "sxg.verify.tz", _ :: rest => ("sxg.verify", rest)      -- the verdict does not depend on the process's local time zone
   | "sxg.sign.mock.rotate", _ => ("sxg.sign.mock", args.take 8 ++ args.drop 9)   -- the signer's earlier use with certificate A leaves no trace
+  | "sxg.sign.mock.chain", _ => ("sxg.sign.mock", args.take 8 ++ [((args.getD 8 "").splitOn ",").headD ""] ++ args.drop 9)   -- cert-sha256 is that of the FIRST certificate of the signer's list, whatever kind it is and whatever follows
   | _, _ => (op, args)
 
 def dispatch (op : String) (args : List String) : String :=
